@@ -251,3 +251,35 @@ Proof.
     pose proof (IH (exp_step ROps n lam Cm dt rho) Hrest) as HB. cbv zeta in HB. destruct HB as [B1 [B2 [B3 B4]]].
     repeat split; auto. unfold exp_steps in *. rewrite B2. exact A2.
 Qed.
+
+(* the purity measure tr(rho^2) is preserved by the exp step, also for mixed states *)
+Lemma conj_purity_measure n (U rho : FM) : meq n (fm n (fa U) U) (fid ROps) ->
+  let r' := fm n U (fm n rho (fa U)) in
+  ftrace ROps n (fm n r' r') = ftrace ROps n (fm n rho rho).
+Proof.
+  intros HU r'. unfold r'.
+  assert (meq n (fm n (fm n U (fm n rho (fa U))) (fm n U (fm n rho (fa U)))) (fm n U (fm n (fm n rho rho) (fa U)))) as E.
+  { rewrite (fmul_assoc n U (fm n rho (fa U)) (fm n U (fm n rho (fa U)))).
+    rewrite <- (fmul_assoc n (fm n rho (fa U)) U (fm n rho (fa U))).
+    rewrite (fmul_assoc n rho (fa U) U), HU, (fmul_id_r n rho).
+    rewrite <- (fmul_assoc n rho rho (fa U)). reflexivity. }
+  rewrite E. apply conj_trace. exact HU.
+Qed.
+
+Definition mpurity (n : nat) (M : mat (T:=R)) : RC := ftrace ROps n (fm n (mget ROps M) (mget ROps M)).
+
+Lemma exp_step_purity n lam Cm dt rho : length lam = n -> unitary n (mget ROps Cm) ->
+  mpurity n (exp_step ROps n lam Cm dt rho) = mpurity n rho.
+Proof.
+  intros Hl HC. unfold mpurity. pose proof (Uf_unitary n lam Cm dt Hl HC) as HU.
+  rewrite (exp_step_spec n lam Cm dt rho). apply conj_purity_measure. exact HU.
+Qed.
+
+Lemma exp_steps_purity n steps : forall rho,
+  Forall (fun s => let '(lam, Cm, dt) := s in length lam = n /\ unitary n (mget ROps Cm)) steps ->
+  mpurity n (exp_steps n steps rho) = mpurity n rho.
+Proof.
+  induction steps as [|[[lam Cm] dt] rest IH]; intros rho Hall; cbn [exp_steps fold_left]; [reflexivity|].
+  inversion Hall as [|? ? Hh Hr]; subst. cbn beta iota in Hh. destruct Hh as [Hl HC].
+  unfold exp_steps in IH. rewrite (IH _ Hr). apply exp_step_purity; assumption.
+Qed.
